@@ -1145,6 +1145,7 @@ pub mod verif_hooks {
     }
 
     pub fn new_kernel(manager: &mut TransportManager, max_inbound: Option<usize>) -> Kernel {
+        // (max_inbound: the configured bound on concurrent inbound requests)
         let protocol_name = ProtocolName::from("/verif/req/1");
         let (event_tx, event_rx) = tokio::sync::mpsc::channel(64);
         let (_command_tx, command_rx) = tokio::sync::mpsc::channel(64);
@@ -1209,6 +1210,16 @@ pub mod verif_hooks {
             }
         }
         false
+    }
+
+    /// An inbound substream of `peer` is handed to the protocol (the remote opened a request substream).
+    pub fn inbound_substream(kernel: &mut Kernel, peer: PeerId, substream: Substream) -> bool {
+        run(kernel.protocol.on_inbound_substream(peer, None, substream)).map_or(false, |r| r.is_ok())
+    }
+
+    /// Number of inbound requests the protocol is serving concurrently (read or being answered).
+    pub fn inbound_in_progress(kernel: &Kernel) -> usize {
+        kernel.protocol.pending_inbound_requests.len() + kernel.protocol.pending_outbound_responses.len()
     }
 
     /// Outcomes reported to the user since the last call.
